@@ -1,9 +1,10 @@
 SPECIFICATION Spec
 CONSTANTS
   Pairs <- PairsDeep
-  AllPython = FALSE
+  PairsRef <- PairsFull
   Dump = TRUE
 INVARIANT RefShape
+INVARIANT RefIsCPythonOnPlainClasses
 INVARIANT ImplAgreesOffHazards
 INVARIANT Publish
 CHECK_DEADLOCK FALSE
